@@ -19,6 +19,28 @@ CHECKS = {
         "Trusted: TLC's evaluation of TLA+ set operators, Python integers.",
    technique="TLA+ spec + TLC exhaustive enumeration; spec states replayed into the real API; call records validated by TLC",
    design="4 C01"),
+ "C03": dict(
+   text="TLC checks on Statements.tla that the lazily committing statement-stream machine (one operator per parser/builder "
+        "step) yields exactly the declarative mirror of the text - every attribute once, in order, in the right part, with "
+        "its doc comment, flags and service split - for every sequence of abstract lines up to the bound, and that "
+        "inserting empty/blank/comment lines or a final newline does not change the structure. Every TLC state is rendered "
+        "as DSDL text in several formatting variants, read with read_namespace and compared with the specification's "
+        "result; accepted models are rendered back to canonical DSDL and re-read.",
+   note="Bounded: all line sequences of length <=4 (quick) / <=5 (thorough) over a 17-symbol alphabet and <=3/4 over the "
+        "full 27-symbol alphabet; concrete tokens per kind are fixed (uint8 fields, uint16 constants, voidN paddings). "
+        "Doc comments are compared under formatting changes that add or remove no comment and no empty line.",
+   technique="TLA+ state machine + declarative mirror checked by TLC; every state replayed into read_namespace",
+   design="4 C03"),
+ "C17": dict(
+   text="TLC checks on Statements.tla that a reported line is the line of the offending statement for every fault category "
+        "(syntax, undefined identifier, failed assertion, lazily committed attribute errors, misplaced directives) at every "
+        "position with arbitrary surrounding lines, that prints delivered before a failure are exactly the earlier @print "
+        "lines, and on Reader.tla that error paths and print events name the file that contains the fault / directive. "
+        "Every state is replayed (LF and CRLF) and (class, path, line) and print events are compared.",
+   note="Bounded line sequences (<=4 quick, <=5 thorough) and dependency depth <=3. Known finding F4b (print path of a "
+        "dependency) is listed in known_findings.json.",
+   technique="TLA+ state machines checked by TLC; every state replayed into read_namespace, error location compared",
+   design="4 C17"),
 }
 
 NOT_YET = "check not built yet in this round (see DESIGN.md section 9 build order)"
